@@ -290,6 +290,9 @@ def run_job(job):
     if job[0] == 'leafspell':
         ctxs = leafspell.CONTEXTS if job[3] == 'thorough' else ['in-quote', 'in-list-item']
         for case in leafspell.cases_of_job(job[:3]):
+            if case[0] == 'lazy' and any(l.startswith(('    ', '\t', ' \t')) for l in case[1][1:]):
+                r.skip('continuation line indented >= 4 that reads as a block marker once re-flowed (outside the property\'s domain)')
+                continue
             if case[0] in ('para', 'setext', 'atx-not', 'hr-not', 'table-not') and any(
                     MARKER_WORD.match(wd) for l in case[1][:(-1 if case[0] == 'setext' else None)] for wd in l.split()[0 if l is not case[1][0] else 1:]):
                 r.skip('a prose word that reads as a block marker once re-flowed to the start of a line (outside the property\'s domain)')
